@@ -56,11 +56,18 @@ const (
 	// closes its connection to the runtime once <reports>/die.<file name> exists (after synchronisation),
 	// writes <reports>/<file name>.closed when its end is closed, and keeps running
 	BHangLater = "hanglater"
+	// the Synchronize handler never answers (the runtime's request time-out ends it)
+	BSyncHang = "synchang"
+	// the Synchronize handler answers after SyncSlowDelay
+	BSyncSlow = "syncslow"
 )
+
+// SyncSlowDelay is how long a syncslow probe takes to answer Synchronize.
+const SyncSlowDelay = 300 * time.Millisecond
 
 // Behaviour returns the behaviour selected by a plugin file name ("" = well behaved).
 func Behaviour(file string) string {
-	for _, b := range []string{BExit, BNoReg, BCloseFd, BCfgErr, BSyncFail, BDieLater, BHangLater} {
+	for _, b := range []string{BExit, BNoReg, BCloseFd, BCfgErr, BSyncFail, BDieLater, BHangLater, BSyncHang, BSyncSlow} {
 		if strings.Contains(file, b) {
 			return b
 		}
@@ -120,6 +127,12 @@ func (p *plugin) Synchronize(_ context.Context, pods []*api.PodSandbox, ctrs []*
 	p.appendLine("events.log", fmt.Sprintf("%s sync %d/%d", p.file, len(pods), len(ctrs)))
 	if p.beh == BSyncFail {
 		return nil, errors.New("probe: synchronisation refused on purpose")
+	}
+	if p.beh == BSyncHang {
+		time.Sleep(time.Hour) // at most until the self-destruct of Main; the runtime gives up and kills the process
+	}
+	if p.beh == BSyncSlow {
+		time.Sleep(SyncSlowDelay)
 	}
 	if p.beh == BDieLater {
 		go func() {
